@@ -9,9 +9,12 @@ pub mod c03;
 pub mod c04;
 pub mod c05;
 pub mod c07;
+pub mod c09;
+pub mod uciproc;
 pub mod c11;
 pub mod c12;
 pub mod c13;
+pub mod c14;
 pub mod srch;
 pub mod mate;
 pub mod refsearch;
@@ -45,9 +48,11 @@ pub fn lookup(id: &str) -> Option<Property> {
         "C05" => prop!("C05", c05),
         "C06" => prop!("C06", c06),
         "C07" => prop!("C07", c07),
+        "C09" => prop!("C09", c09),
         "C11" => prop!("C11", c11),
         "C12" => prop!("C12", c12),
         "C13" => prop!("C13", c13),
+        "C14" => prop!("C14", c14),
         "C17" => prop!("C17", c17),
         _ => return None,
     })
